@@ -49,7 +49,7 @@ def compute_domains_no_sub_cycle(domains: NDArray, parameters: NDArray) -> int:
     :return: the status of the propagation (consistency, inconsistency or entailment) as an int
     """
     n = len(domains)
-    paths = np.zeros((n, 3), dtype=np.int16)
+    paths = np.zeros((n, 3), dtype=np.int32)
     for i in range(n):
         paths[i, :PATH_LENGTH] = i
     loop = True
